@@ -22,7 +22,20 @@ func ToError(err error) *Error {
 
 // InternalError converts an error to an *Error with the code system.internalError.
 func InternalError(err error) *Error {
-	return &Error{Code: CodeInternalError, Message: "Internal error: " + err.Error()}
+	return &Error{Code: CodeInternalError, Message: "Internal error: " + errString(err)}
+}
+
+// errString returns the error message of err. As it is used when recovering
+// from panics in handlers, where a panic cannot be recovered a second time, it
+// guards against the Error method itself panicking, such as for a nil pointer
+// of an error type.
+func errString(err error) (s string) {
+	defer func() {
+		if recover() != nil {
+			s = "panic in Error method"
+		}
+	}()
+	return err.Error()
 }
 
 // Predefined error codes
